@@ -357,7 +357,7 @@ func TestC29(t *testing.T) {
 				case !bytes.Equal(got.Content, want):
 					viol("content-differs", fmt.Sprintf("target %.8s file %s holds %d bytes, input has %d bytes (first difference at %d)", id, f.Path, len(got.Content), len(want), firstDiff(got.Content, want)))
 					return
-				case got.UID != f.UID || got.GID != f.GID || got.Mode != f.Mode:
+				case got.UID != f.UID || got.GID != f.GID || !c29ModeOK(f, got.Mode):
 					viol("owner-or-mode-differs", fmt.Sprintf("target %.8s file %s has uid/gid/mode %d/%d/%o, requested %d/%d/%o", id, f.Path, got.UID, got.GID, got.Mode, f.UID, f.GID, f.Mode))
 					return
 				}
@@ -391,7 +391,7 @@ func TestC29(t *testing.T) {
 			c.API, nf = "send-direct", 1+r.Intn(4)
 		}
 		for k := 0; k < nf; k++ {
-			c.Files = append(c.Files, c29File{Path: fmt.Sprintf("/data/f%d", k), Size: sizesPool[r.Intn(len(sizesPool))], UID: r.Intn(3), GID: r.Intn(3), Mode: []int64{0o644, 0o600, 0o755}[r.Intn(3)], Seed: r.Int63()})
+			c.Files = append(c.Files, c29File{Path: fmt.Sprintf("/data/f%d", k), Size: sizesPool[r.Intn(len(sizesPool))], UID: r.Intn(3), GID: r.Intn(3), Mode: []int64{0o644, 0o600, 0o755, 0}[r.Intn(4)], Seed: r.Int63()})
 		}
 		nt := 1 + r.Intn(3)
 		for k := 0; k < nt; k++ {
@@ -435,4 +435,14 @@ func firstDiff(a, b []byte) int {
 		}
 	}
 	return n
+}
+
+// c29ModeOK: the file has the requested mode. A request that states neither owner nor mode (all zero) is taken by
+// the validating entry points (calcium.Send, the SendLargeFile RPC) as asking for the default 0755, the Send RPC hands
+// it on as it is: both readings are accepted for that one input. A mode of 0 next to an owner is a request for mode 0.
+func c29ModeOK(f c29File, got int64) bool {
+	if f.UID == 0 && f.GID == 0 && f.Mode == 0 {
+		return got == 0 || got == 0o755
+	}
+	return got == f.Mode
 }
